@@ -22,6 +22,7 @@ import (
 	"fmt"
 	"io"
 	"net"
+	"os"
 	"runtime"
 	"runtime/debug"
 	"runtime/metrics"
@@ -482,7 +483,7 @@ func c37Drive(reader string, data []byte, seed uint64, plain bool, faultAt int) 
 	}
 	{
 		return &c37Out{reader: reader, end: "hang", hung: true, class: "reader-call-never-returned:" + reader,
-			detail: fmt.Sprintf("constructing the reader and driving it over a %d-byte stream had not finished after 8 s of real time", len(data))}
+			detail: fmt.Sprintf("constructing the reader and driving it over a %d-byte stream had not finished after 8 s of real time", len(data)) + c37DebugStacks()}
 	}
 }
 
@@ -991,12 +992,63 @@ func init() {
 // c37InAllocator reports whether a goroutine that is driving a reader is inside the runtime's
 // allocator right now (a multi-gigabyte make() clears its memory before it returns).
 func c37InAllocator() bool {
-	buf := make([]byte, 1<<20)
-	n := runtime.Stack(buf, true)
-	for _, g := range strings.Split(string(buf[:n]), "\n\n") {
-		if strings.Contains(g, "c37DriveInner") && (strings.Contains(g, "runtime.mallocgc") || strings.Contains(g, "runtime.memclrNoHeapPointers") || strings.Contains(g, "runtime.(*mheap).alloc") || strings.Contains(g, "runtime.makeslice") || strings.Contains(g, "runtime.gcStart") || strings.Contains(g, "runtime.gcAssistAlloc")) {
+	// (runtime.Stack and the text goroutine profile both leave the runtime's own frames out;
+	// the allocator's frames are exactly what is looked for here)
+	recs := make([]runtime.StackRecord, 256)
+	n, ok := runtime.GoroutineProfile(recs)
+	if !ok {
+		recs = make([]runtime.StackRecord, 2*n+64)
+		if n, ok = runtime.GoroutineProfile(recs); !ok {
+			return false
+		}
+	}
+	for _, r := range recs[:n] {
+		driving, alloc := false, false
+		fr := runtime.CallersFrames(r.Stack())
+		for {
+			f, more := fr.Next()
+			switch {
+			case strings.Contains(f.Function, "c37DriveInner"):
+				driving = true
+			case f.Function == "runtime.mallocgc" || f.Function == "runtime.makeslice" || f.Function == "runtime.growslice" ||
+				f.Function == "runtime.newobject" || f.Function == "runtime.GC" || f.Function == "runtime.gcAssistAlloc" ||
+				f.Function == "runtime.gcStart":
+				alloc = true
+			}
+			if !more {
+				break
+			}
+		}
+		if driving && alloc {
 			return true
 		}
 	}
 	return false
+}
+
+func c37DebugStacks() string {
+	if os.Getenv("VERIF_C37_DEBUG") == "" {
+		return ""
+	}
+	buf := make([]byte, 4<<20)
+	debug.SetTraceback("system")
+	n := runtime.Stack(buf, true)
+	debug.SetTraceback("single")
+	out := ""
+	for _, g := range strings.Split(string(buf[:n]), "\n\n") {
+		if strings.Contains(g, "c37DriveInner") {
+			out += "\n" + g
+		}
+	}
+	ents, _ := os.ReadDir("/proc/self/task")
+	for _, e := range ents {
+		st, _ := os.ReadFile("/proc/self/task/" + e.Name() + "/stat")
+		wc, _ := os.ReadFile("/proc/self/task/" + e.Name() + "/wchan")
+		ks, _ := os.ReadFile("/proc/self/task/" + e.Name() + "/stack")
+		f := strings.Fields(string(st))
+		if len(f) > 14 {
+			out += fmt.Sprintf("\ntask %s state=%s utime=%s stime=%s wchan=%s kstack=%q", e.Name(), f[2], f[13], f[14], wc, ks)
+		}
+	}
+	return out
 }
